@@ -392,9 +392,11 @@ theorem circularArcProperties_safe (fuel : Nat) (a b c : Pos P) :
   split
   · exact True.intro
   · simp only []
-    refine Safe.bind (thetaLoop_safe fuel _ _) ?_
-    intro te _
-    split <;> exact True.intro
+    split
+    · exact True.intro
+    · refine Safe.bind (thetaLoop_safe (F := F) fuel _ _) ?_
+      intro te _
+      split <;> exact True.intro
 
 omit [Trig F] in
 theorem arcSubPoints_ge_two (pr : ArcProps P F) : 2 ≤ arcSubPoints pr := by
